@@ -46,7 +46,13 @@ import numpy as np, verif_probes as VP
 from pyxel.pipelines import DetectionPipeline, ModelFunction, Processor
 from pyxel.exposure import Readout, run_pipeline
 VIOLATED, DETAIL = False, ''
-for non_destructive in (False, True):
+def mk_readout(times, start, nd, built):
+    if built == 'constructor':
+        return Readout(times=times, start_time=start, non_destructive=nd)
+    r = Readout()                      # a readout configured AFTER its construction (what Processor.set does for observation.readout.*)
+    r.times = times; r.start_time = start; r.non_destructive = nd
+    return r
+for non_destructive, built in ((False, 'constructor'), (True, 'constructor'), (True, 'setters'), (False, 'setters')):
     for times, start in (([1.0, 2.5, 4.0, 7.0], 0.5), ([0.5], 0.0), ([2.0, 3.0], -1.0)):
         VP.LOG.clear()
         det = VP.detector(adc_bit_resolution=16, adc_voltage_range=(0.0, 10.0))
@@ -60,9 +66,9 @@ for non_destructive in (False, True):
             pass
         VP.LOG.clear()
         try:
-            run_pipeline(processor=proc, readout=Readout(times=times, start_time=start, non_destructive=non_destructive), outputs=None, debug=False, with_inherited_coords=False)
+            run_pipeline(processor=proc, readout=mk_readout(times, start, non_destructive, built), outputs=None, debug=False, with_inherited_coords=False)
         except Exception as e:
-            VIOLATED, DETAIL = True, f'times={{times}} start={{start}} nd={{non_destructive}}: run raised {{e!r}}'
+            VIOLATED, DETAIL = True, f'times={{times}} start={{start}} nd={{non_destructive}} ({{built}}): run raised {{e!r}}'
             break
         firsts = [x for x in VP.LOG if x['name'] == 'first']
         if len(firsts) != len(times):
@@ -76,7 +82,7 @@ for non_destructive in (False, True):
                   and b['photon'] is None and b['signal'] is None and b['image'] is None and float(np.abs(b['charge']).max()) == 0.0
                   and np.allclose(b['pixel'], exp_pix))
             if not ok:
-                VIOLATED, DETAIL = True, f'times={{times}} start={{start}} non_destructive={{non_destructive}} step {{i}}: clock={{c}} pixel={{b["pixel"].ravel()[:2]}} photon={{None if b["photon"] is None else "set"}}'
+                VIOLATED, DETAIL = True, f'times={{times}} start={{start}} non_destructive={{non_destructive}} (readout built by {{built}}) step {{i}}: clock={{c}} pixel={{b["pixel"].ravel()[:2]}} photon={{None if b["photon"] is None else "set"}}'
                 break
         if VIOLATED: break
     if VIOLATED: break
@@ -287,7 +293,7 @@ def exposure_setup(u, ex, valid_schedule=True, prior="arbitrary"):
     proc = st.alloc(HObj(pci, {"detector": det, "pipeline": VOpaque("xr", st.fresh_int("pipeline"), {"label": "pipeline"}), "_log": VOpaque("logger")}))
     rci = u.cls(f"{RO}::Readout")
     readout = st.alloc(HObj(rci, {"_times": times_array(ex), "_start_time": VFloat(START), "_non_destructive": VBool(z3.Bool("non_destructive")),
-                                  "_time_domain_simulation": VBool(True)}))
+                                  "_time_domain_simulation": VBool(z3.Bool("time_domain_flag"))}))
     return [], {"processor": proc, "readout": readout, "outputs": NONE, "debug": VBool(z3.Bool("debug")),
                 "with_inherited_coords": VBool(z3.Bool("with_inherited_coords")), "progressbar": VBool(False), "pipeline_seed": NONE}
 
